@@ -3,6 +3,7 @@
 HARNESSES = {
     'mc_hash': dict(src=['mc_hash.c'], flavour='asan'),
     'mc_logmath': dict(src=['mc_logmath.c'], flavour='asan'),
+    'mc_session': dict(src=['mc_session.c'], flavour='asan'),
     'mc_decode': dict(src=['mc_decode.c'], flavour='asan', ldflags=['-Wl,--wrap=acmod_score']),
     'mc_jsgf': dict(src=['mc_jsgf.c'], flavour='asan', ldflags=['-Wl,--wrap=exit']),
     'mc_fsg': dict(src=['mc_fsg.c'], flavour='asan'),
@@ -208,6 +209,41 @@ def _lat_specs(tier, tag):
     return sp
 
 
+def _ses_runs(props, specs, nshard=16):
+    r = []
+    for label, extra in specs:
+        for i in range(nshard):
+            r.append(dict(h='mc_session', label='%s-shard%d' % (label, i), args=['--props', props] + extra + ['--shard', '%d/%d' % (i, nshard)]))
+    return r
+
+
+def _c09_specs(tier):
+    if tier == 'quick':
+        return [('c09-all-len2', ['--set', 'all', '--len', '2']), ('c09-core-len3', ['--set', 'core', '--len', '3']),
+                ('c09-proto-len5', ['--set', 'proto', '--len', '5']), ('c09-two-core-len2', ['--set', 'core', '--len', '2', '--two', '1'])]
+    return [('c09-all-len3', ['--set', 'all', '--len', '3']), ('c09-core-len4', ['--set', 'core', '--len', '4']),
+            ('c09-proto-len6', ['--set', 'proto', '--len', '6']), ('c09-two-core-len3', ['--set', 'core', '--len', '3', '--two', '1'])]
+
+
+def _c08_specs(tier):
+    if tier == 'quick':
+        return [('c08-all-len2', ['--set', 'all', '--len', '2']), ('c08-proto-len4', ['--set', 'proto', '--len', '4']),
+                ('c08-two-core-len2', ['--set', 'core', '--len', '2', '--two', '1'])]
+    return [('c08-all-len3', ['--set', 'all', '--len', '3']), ('c08-core-len3', ['--set', 'core', '--len', '3']),
+            ('c08-two-core-len3', ['--set', 'core', '--len', '3', '--two', '1'])]
+
+
+def _c16_specs(tier):
+    if tier == 'quick':
+        return [('c16-dict-len3', ['--set', 'dict', '--len', '3']), ('c16-all-len2', ['--set', 'all', '--len', '2'])]
+    return [('c16-dict-len4', ['--set', 'dict', '--len', '4']), ('c16-all-len3', ['--set', 'all', '--len', '3'])]
+
+
+SES_ASSUME = ['operation alphabet of 42 public-API calls (see harness/mc_session.c); audio = excerpts of tests/data/goforward.raw, zeros, and no samples; '
+              'REAL front end and REAL acoustic scorer (no injected scores)',
+              'grammar loading, dictionary additions and reinit are only issued between utterances (the documented protocol); every other call is issued in every state',
+              'small dictionary (9 words) on model en-us; each history runs in a child forked from one initialised decoder']
+
 DEC_ASSUME = ['audio is represented by per-frame symbols over a small phone alphabet: senone scores are base(symbol, phone of senone) + a fixed '
               'per-senone jitter, supplied through the interposed acmod_score; the front end, feature buffering and every search decision are real',
               'dictionary of 14 words over the en-us phone set (one-, two-, three-phone words, shared prefixes, alternates); model en-us only',
@@ -255,6 +291,45 @@ CHECKS = {
              'table and the transition matrix (emissions + self-loops + exit transition); second call returns the same object / same failure',
         assumptions=DEC_ASSUME + ['state scores are checked against the senone scores the aligner was given (the second pass uses its own '
                                   'context conventions, so they are not compared with first-pass word scores)'] + TRUST,
+    ),
+    'C08': dict(
+        title='utterances and decoder instances are isolated; decoding is deterministic',
+        level='exploration',
+        runs={'quick': _ses_runs('C08', _c08_specs('quick')), 'thorough': _ses_runs('C08', _c08_specs('thorough'))},
+        budget_s={'quick': 600, 'thorough': 5400},
+        coverage=ex_cov,
+        rule='every API history up to length 2 over all 42 operations and up to length 4 over the protocol core (thorough: 3 / core 3), '
+             'followed by a probe: the full goforward.raw utterance decoded in batch mode WITHOUT resetting channel normalisation and then '
+             'in streaming mode after decoder_set_cmn(fixed); the digest (hypothesis, score, every segment with scores, frame count, '
+             'lattice node/link counts and score sum, first 3 N-best entries) must equal the digest of a fresh decoder (with the same '
+             'dictionary additions); column --two: a second decoder does its own utterance between the operations and both must probe equal',
+        assumptions=SES_ASSUME + ['dither off (it uses a process-global random generator)'] + TRUST,
+    ),
+    'C09': dict(
+        title='no sequence of API calls corrupts memory, aborts, or leaks',
+        level='exploration',
+        runs={'quick': _ses_runs('C09', _c09_specs('quick')), 'thorough': _ses_runs('C09', _c09_specs('thorough'))},
+        budget_s={'quick': 600, 'thorough': 5400},
+        coverage=ex_cov,
+        rule='every API history up to length 2 over all 42 operations, length 3 over the 18-operation core, length 5 over the 7-operation '
+             'protocol core {start, process, end, hyp, seg, alignment, free} (thorough: 3/4/6), each in a forked child under ASan+UBSan with '
+             'asserts on: outcome must be a normal return (no sanitizer report, assertion, exit, hang), out-of-order calls must return the '
+             'documented error value, and after the last reference is released the allocator must be back at the baseline measured before '
+             'the decoder was created (leaks are attributed to their allocation site with a recoverable LeakSanitizer pass)',
+        assumptions=SES_ASSUME + TRUST,
+    ),
+    'C16': dict(
+        title='dictionary additions take effect and never disturb existing entries',
+        level='exploration',
+        runs={'quick': _ses_runs('C16', _c16_specs('quick')), 'thorough': _ses_runs('C16', _c16_specs('thorough'))},
+        budget_s={'quick': 600, 'thorough': 5400},
+        coverage=ex_cov,
+        rule='every history up to length 3 (thorough 4) over 16 dictionary-centred operations (new word, alternate, duplicate, repeated '
+             'alternate, alternate without base, unknown phone, empty word, empty pronunciation, update 0/1, lookups, grammar loads, an '
+             'utterance, reinit) and up to length 2 over all operations; after EVERY operation 11 lookups are compared with a reference '
+             'dictionary, every alternate chain is walked (acyclic, shared base, complete), rejected additions must change nothing, accepted '
+             'words must be usable at once in alignment text and JSGF and report their base spelling',
+        assumptions=SES_ASSUME + ['growth past the 4096 preallocated dictionary entries is not explored'] + TRUST,
     ),
     'C11': dict(
         title='the word lattice is a well-formed, time-consistent graph of grammar paths',
@@ -406,6 +481,22 @@ CHECKS = {
 PENDING_REASON = {}
 
 MANIFEST_TEXT = {
+    'C08': dict(
+        text='Bounded exhaustive enumeration of API histories on the real decoder with the real scorer; after each history a differential '
+             'probe compares the state reached "from elsewhere" with a fresh decoder, in batch mode without any reset and in streaming '
+             'mode after resetting channel normalisation; a second live decoder is interleaved in a separate column.',
+        design_ref='DESIGN.md section 2, H9 (C08)', technique='bounded exhaustive enumeration of operation histories with a differential fresh-object oracle',
+        note='histories up to length 2-4 depending on the operation subset; one probe utterance'),
+    'C09': dict(
+        text='Every history up to the stated lengths is executed in its own forked process under ASan/UBSan with assertions enabled; the '
+             'verdict is the process outcome, the documented return values of out-of-order calls, and exact allocator accounting after the last free.',
+        design_ref='DESIGN.md section 2, H9 (C09)', technique='bounded exhaustive enumeration of operation histories, sanitizer and allocator-accounting oracle',
+        note='42-operation alphabet; lengths 2/3/5 (quick), 3/4/6 (thorough) on nested operation subsets'),
+    'C16': dict(
+        text='Bounded exhaustive enumeration of dictionary-centred histories with a reference dictionary checked after every operation, '
+             'including internal alternate-chain integrity.',
+        design_ref='DESIGN.md section 2, H9 (C16)', technique='bounded exhaustive enumeration of operation histories with a lock-step reference dictionary',
+        note='9 base words, 5 addable spellings; table growth not explored'),
     'C11': dict(
         text='Every lattice the decoder produces in the bounded exhaustive exploration, including mid-utterance ones, is traversed '
              'completely: graph shape, time consistency, and an exact dynamic program proving that every path spells a path of the input grammar.',
